@@ -52,3 +52,19 @@ Theorem sample_publish_is_nontrivial :
      Del 0 (Err 2); Del 0 (Err 3); Del 1 (Err 3); Del 2 (Err 3); Del 0 (Err 2); Del 1 (Err 2)].
 Proof. exact sample_publish. Qed.
 Print Assumptions sample_publish_is_nontrivial.
+
+(** the filter as a HISTORY of calls on one predicate object: for every interleaving of
+    setLogLevelForNamespace / clearLogLevels / logLevelForNamespace / predicate(event), every answer depends only
+    on the configuration produced by the calls so far (latest setting per namespace since the last clear) —
+    earlier queries leave no trace *)
+Theorem filter_answers_depend_only_on_current_configuration : forall d0 ops,
+  frun (finit d0) ops = spec_run d0 [] ops.
+Proof. exact frun_spec. Qed.
+Print Assumptions filter_answers_depend_only_on_current_configuration.
+
+Theorem filter_history_uses_most_specific_prefix_of_latest_settings : forall d0 h ns,
+  (exists j, 1 <= j <= length ns /\ latest h (firstn j ns) = Some (level_spec d0 h ns)
+             /\ forall i, j < i <= length ns -> latest h (firstn i ns) = None)
+  \/ (level_spec d0 h ns = latest_default d0 h /\ forall i, 1 <= i <= length ns -> latest h (firstn i ns) = None).
+Proof. exact level_spec_most_specific. Qed.
+Print Assumptions filter_history_uses_most_specific_prefix_of_latest_settings.
